@@ -155,7 +155,7 @@ func checkC08(p *Prog, r *Result, tier string) {
 	r.Technique = "field-coverage and mirrored-operator rules over the methods of resource/plugins/cpumem/types (type-checked AST), inverse-call rule over resource/cobalt, delta-shape rule in CalculateRealloc"
 	r.Explanation = "DC every DeepCopy of a cpumem bookkeeping type reads every field of its receiver, and a map/pointer/slice field is never placed into the copy as the receiver's own value (it is ranged over or copied by a call); " +
 		"MIR for every usage-relevant field (table in the evidence) Add updates it only with '+' and Sub only with '-', in the struct types and in the two map types; " +
-		"RB every RollbackX of the resource manager calls SetNodeResourceUsage with the same argument shape as X (nil requests, delta mode) and the opposite direction; DELTA CalculateRealloc publishes as delta a DeepCopy of the new resource from which the parsed origin was subtracted. " +
+		"RB every RollbackX of the resource manager calls SetNodeResourceUsage with the same argument shape as X (nil requests, delta mode) and the opposite direction; APPLY the plugin applies every workload resource (or delta) it is handed to the node usage: the loop in calculateNodeResource converts each element field by field (CPU<-CPURequest, CPUMap<-CPUMap, Memory<-MemoryRequest, NUMAMemory<-NUMAMemory) and adds or subtracts it unconditionally, direction chosen only by incr; DELTA CalculateRealloc publishes as delta a DeepCopy of the new resource from which the parsed origin was subtracted. " +
 		"These are necessary for 'usage == sum of live workloads' and 'rollback restores usage exactly': a field missed by the copy or updated with the wrong sign makes the delta, and hence the usage, wrong for every history that touches it."
 	r.NotCovered = "the arithmetic over a whole history (values), rounding of CPU sums, aliasing through the heap (WorkloadResource.Add adopts the argument's NUMAMemory map when its own is empty: noted as an observation)"
 	r.Assumptions = []string{"usage-relevant field table (printed under tables) confirmed by reading calculateNodeResource", "A1 no reflection-based copying in these types (mapstructure is used only for Parse)"}
@@ -164,6 +164,8 @@ func checkC08(p *Prog, r *Result, tier string) {
 	r.min("MIR", 10)
 	r.min("RB", 2)
 	r.min("DELTA", 1)
+	r.min("APPLY", 1)
+	checkC08Apply(p, r)
 
 	// ---- DC
 	for _, fn := range p.sortedFuncs(cpumemTypes) {
@@ -362,4 +364,120 @@ func checkC08(p *Prog, r *Result, tier string) {
 	})
 	r.check(fromCopy && nSub == 1 && otherMut == "", "DELTA", dkey, p.pos(C.Decl), "delta := new.DeepCopy(); delta.Sub(origin); nothing else touches it",
 		fmt.Sprintf("delta from DeepCopy of the published new resource: %v; Sub(origin) calls: %d; other mutation: %q — the usage delta applied to the node is not new - origin", fromCopy, nSub, otherMut))
+}
+
+// APPLY: calculateNodeResource applies every element of the workload-resource list, all four usage fields, unconditionally.
+func checkC08Apply(p *Prog, r *Result) {
+	F := p.Fn("resource/plugins/cpumem.Plugin.calculateNodeResource")
+	key := "resource/plugins/cpumem.Plugin.calculateNodeResource / every workload resource handed in is applied to the usage, all usage fields, direction by incr only"
+	if F == nil {
+		r.undecided("APPLY", key, "", "not found")
+		return
+	}
+	var list, incr types.Object
+	for i := 0; ; i++ {
+		o := F.paramObj(i)
+		if o == nil {
+			break
+		}
+		if sl, ok := o.Type().Underlying().(*types.Slice); ok && strings.HasSuffix(sl.Elem().String(), "WorkloadResource") {
+			list = o
+		}
+		if o.Name() == "incr" {
+			incr = o
+		}
+	}
+	if list == nil || incr == nil {
+		r.undecided("APPLY", key, p.pos(F.Decl), "no []*WorkloadResource / incr parameters")
+		return
+	}
+	want := map[string]string{"CPU": "CPURequest", "CPUMap": "CPUMap", "Memory": "MemoryRequest", "NUMAMemory": "NUMAMemory"}
+	why := "no loop over the workload resources"
+	var at ast.Node = F.Decl
+	F.inspectBody(func(n ast.Node) bool {
+		rs, ok := n.(*ast.RangeStmt)
+		if !ok || F.objOf(rs.X) != list || rs.Value == nil {
+			return true
+		}
+		at = rs
+		elem := F.objOf(rs.Value)
+		why = ""
+		conv, applied := false, false
+		var convObj types.Object
+		for _, st := range rs.Body.List {
+			switch s := st.(type) {
+			case *ast.AssignStmt:
+				if len(s.Lhs) != 1 || len(s.Rhs) != 1 {
+					why = "unexpected assignment in the loop"
+					continue
+				}
+				e := unparen(s.Rhs[0])
+				if u, ok := e.(*ast.UnaryExpr); ok {
+					e = unparen(u.X)
+				}
+				lit, ok := e.(*ast.CompositeLit)
+				if !ok || !strings.HasSuffix(F.typeOf(lit).String(), "NodeResource") {
+					why = "unexpected assignment in the loop: " + exprStr(s.Lhs[0])
+					continue
+				}
+				got := map[string]string{}
+				for _, el := range lit.Elts {
+					if kv, ok := el.(*ast.KeyValueExpr); ok {
+						if sel, ok := unparen(kv.Value).(*ast.SelectorExpr); ok && F.objOf(sel.X) == elem {
+							got[exprStr(kv.Key)] = sel.Sel.Name
+						} else {
+							got[exprStr(kv.Key)] = "?" + exprStr(kv.Value)
+						}
+					}
+				}
+				for k, v := range want {
+					if got[k] != v {
+						why = fmt.Sprintf("usage field %s is taken from %q, not from the workload's %s", k, got[k], v)
+					}
+				}
+				conv, convObj = true, F.objOf(s.Lhs[0])
+			case *ast.IfStmt:
+				// if incr { resp.Add(x) } else { resp.Sub(x) }
+				good := false
+				if F.objOf(s.Cond) == incr && s.Init == nil && s.Else != nil && len(s.Body.List) == 1 {
+					if eb, ok := s.Else.(*ast.BlockStmt); ok && len(eb.List) == 1 {
+						m1, a1 := methodCallOn(F, s.Body.List[0])
+						m2, a2 := methodCallOn(F, eb.List[0])
+						if m1 == "Add" && m2 == "Sub" && a1 != nil && a1 == a2 && a1 == convObj {
+							good = true
+						}
+					}
+				}
+				if good {
+					applied = true
+				} else {
+					why = "the loop contains a condition other than the direction switch `if incr {Add} else {Sub}` (" + exprStr(s.Cond) + "): some workload resources or deltas are skipped, so usage drifts from the sum of the workloads (a bind-only delta has zero CPU and memory request but non-empty per-core pieces)"
+				}
+			default:
+				why = fmt.Sprintf("unexpected %T in the loop over the workload resources", st)
+			}
+		}
+		if why == "" && (!conv || !applied) {
+			why = "the loop does not convert and apply each element"
+		}
+		return true
+	})
+	r.check2(why, "APPLY", key, p.pos(at), "for each workload: NodeResource{CPU, CPUMap, Memory, NUMAMemory} from the element; if incr Add else Sub")
+}
+
+// methodCallOn: for a statement `recv.M(arg)` returns M and arg's object.
+func methodCallOn(fn *FuncNode, st ast.Stmt) (string, types.Object) {
+	es, ok := st.(*ast.ExprStmt)
+	if !ok {
+		return "", nil
+	}
+	c, ok := unparen(es.X).(*ast.CallExpr)
+	if !ok || len(c.Args) != 1 {
+		return "", nil
+	}
+	sel, ok := unparen(c.Fun).(*ast.SelectorExpr)
+	if !ok {
+		return "", nil
+	}
+	return sel.Sel.Name, fn.objOf(c.Args[0])
 }
